@@ -57,7 +57,13 @@ def mesh_stage(ctx, dim):
     ctx.require_clean(r, "G%d" % dim)
     ctx.add_tlc_counts(r)
     exhaustive_n = len(r.tagged("BEHAVIOUR"))
-    beh += [json.loads(b[1]) for b in r.tagged("BEHAVIOUR")]
+    allb = [json.loads(b[1]) for b in r.tagged("BEHAVIOUR")]
+    if len(allb) > 6000:
+        # thorough tier: every history of length 3 is generated (28 031); a seeded 6 000 of them are executed
+        # under the four realisations (the trace file would otherwise exceed what one TLC run can hold)
+        import random
+        allb = random.Random(ctx.seed).sample(allb, 6000)
+    beh += allb
     r = ctx.tlc("G%ds" % dim, "mesh/MCMesh", GEN_CFG % dict(arity=dim, maxid=40, maxlen=sim_depth),
                 workers=1, timeout=600, simulate="num=%d" % sim_n, depth=sim_depth + 1)
     ctx.require_clean(r, "G%ds" % dim, allow_sim=True)
@@ -75,11 +81,39 @@ def mesh_stage(ctx, dim):
     ctx.drv(["c09-mesh", "in=" + bpath, "out=" + rpath, "dim=%d" % dim, "stats=" + spath,
              "random=%d" % rand_n, "len=%d" % rand_len, "maxid=%d" % maxid, "seed=%d" % ctx.seed])
     stats = json.load(open(spath))
-    j = ctx.tlc("V%d" % dim, "mesh/MeshTrace", TRACE_CFG % dict(arity=dim, maxid=maxid),
-                data={"records.ndjson": rpath}, workers=16, timeout=1800, heap="8g")
-    ctx.require_clean(j, "V%d" % dim)
-    ctx.add_tlc_counts(j)
-    rejects = j.tagged("REJECT")
+    # the trace file is validated in chunks of <= 40 MB (TLC deserialises a whole file into memory)
+    rejects = []
+    judge_states = 0
+    chunk, size, nchunk = [], 0, 0
+
+    def flush():
+        nonlocal chunk, size, nchunk, judge_states
+        if not chunk:
+            return
+        nchunk += 1
+        cpath = os.path.join(ctx.dir, "records%d-%d.ndjson" % (dim, nchunk))
+        with open(cpath, "w") as fh:
+            fh.writelines(chunk)
+        j = ctx.tlc("V%d-%d" % (dim, nchunk), "mesh/MeshTrace", TRACE_CFG % dict(arity=dim, maxid=maxid),
+                    data={"records.ndjson": cpath}, workers=16, timeout=2400, heap="8g")
+        ctx.require_clean(j, "V%d-%d" % (dim, nchunk))
+        ctx.add_tlc_counts(j)
+        judge_states += j.distinct
+        rejects.extend(j.tagged("REJECT"))
+        os.remove(cpath)
+        chunk, size = [], 0
+
+    with open(rpath) as fh:
+        for ln in fh:
+            chunk.append(ln)
+            size += len(ln)
+            if size > 40 * 1024 * 1024:
+                flush()
+    flush()
+
+    class _J:
+        distinct = judge_states
+    j = _J()
     recs = None
     if rejects:
         recs = {r["id"]: r for r in vlib.read_ndjson(rpath)}
@@ -94,7 +128,7 @@ def mesh_stage(ctx, dim):
     ctx.counts["traces_validated_against_impl"] += stats["records"]
     ctx.counts["evaluations"] += stats["records"]
     ctx.counts["distinct_nontrivial"] += stats.get("mutation_after_index", 0)
-    ctx.stage("mesh%dd" % dim, exhaustive_histories=exhaustive_n, exhaustive_len=klen,
+    ctx.stage("mesh%dd" % dim, exhaustive_histories=exhaustive_n, executed_of_exhaustive=min(exhaustive_n, 6000), exhaustive_len=klen,
               simulated_histories=len(seen), simulated_len=sim_depth, go_random_histories=rand_n,
               go_random_len=rand_len, records=stats["records"], events=stats["events"],
               mutation_after_index=stats.get("mutation_after_index", 0),
